@@ -22,4 +22,4 @@ Extraction "model.ml"
   Expr.value_and_gradient Expr.sem Expr.tangent Expr.n_active Expr.n_scratch Expr.n_arrays Expr.mkFOps Program.exec Program.dexec Program.instantiate Gen_Ops.unary_functions ArrayStmt.aexec ArrayStmt.denoted
   Protocol.pstep Protocol.pinit Protocol.obs_gradient Protocol.obs_gradient_error Protocol.obs_jacobian Protocol.obs_counts
   Matmul.adept_gemm_cell Matmul.adept_gemv_cell Matmul.zsum Matmul.gemm_statement Matmul.ops_val
-  Minim.lm_bounded Minim.lm_unbounded Minim.status_code MinimCG.cg_bounded MinimCG.cg_unbounded MinimLBFGS.lbfgs_bounded.
+  Minim.lm_bounded Minim.lm_unbounded Minim.status_code MinimCG.cg_bounded MinimCG.cg_unbounded MinimLBFGS.lbfgs_bounded MinimLBFGS.lbfgs_unbounded.
